@@ -16,7 +16,7 @@ When(c, S) == IF c THEN S ELSE {}
 
 Check(e) ==
   LET x == Expected(e.script, e.count, e.attempts)
-      delivered == [i \in 1..x.got |-> i % 256]
+      delivered == [i \in 1..(IF x.got > 70000 THEN 0 ELSE x.got) |-> i % 256]
       AB == <<97, 98>>
       YZ == <<121, 122>>
   IN IF e.panic # "" THEN {"read_n panicked: " \o e.panic}
@@ -27,7 +27,9 @@ Check(e) ==
      \cup When((e.ok = 1) # (x.err = 0), {IF x.err = 0 THEN "read_n failed although bytes were delivered or end of file came first"
                                                         ELSE "read_n succeeded although nothing was delivered and the last response was an error"})
      \cup When(e.ok = 0 /\ x.err # 0 /\ e.err # x.err, {"read_n failed with another error than the last one"})
-     \cup When(e.ok = 1 /\ x.err = 0 /\ e.got # delivered, {"read_n returned other bytes than the ones delivered, in order"})
+     \* (results longer than 70000 bytes are logged as length + "byte i is i mod 256 for every i")
+     \cup When(e.ok = 1 /\ x.err = 0 /\ (IF x.got > 70000 THEN e.got_len # x.got \/ e.got_ramp # 1 ELSE e.got # delivered),
+               {"read_n returned other bytes than the ones delivered, in order"})
      \cup When(e.entry = "enc_read_n" /\ e.out # RefEncode(AB \o YZ, 252, 64008, 253),
                {"Encoder::read_n changed the encoder's output"})
      \cup When(e.entry = "encode_read" /\ e.out # RefEncode(AB \o (IF x.err = 0 THEN delivered ELSE << >>) \o YZ, 252, 64008, 253),
